@@ -809,6 +809,24 @@ func (e *Exec) evalCall(ctx *evalCtx, x *ECall, want types.Type) Val {
 	case "cat":
 		a, b := arg(0, ghostIntT), arg(1, ghostIntT)
 		return Val{T: []string{app(e.fun("cat", []string{SInt, SInt}, SInt), a.T[0], b.T[0])}, Typ: ghostIntT}
+	case "rcancelled", "rclosed":
+		v := arg(0, nil)
+		return Val{T: []string{e.recvState(ctx.st, strings.TrimPrefix(x.F, "r"), v.T[len(v.T)-1], ctx.inOld, ctx.oldHeap)}, Typ: boolT}
+	case "statusProto":
+		v := arg(0, nil)
+		return Val{T: []string{app(e.fun("status_proto", []string{SInt}, SInt), v.T[0])}, Typ: e.lookupType("*spb.Status")}
+	case "statusOf":
+		v := arg(0, nil)
+		return Val{T: []string{app(e.fun("status_of_err", []string{SInt, SInt}, SInt), v.T[0], v.T[1])}, Typ: e.lookupType("*status.Status")}
+	case "statusCode":
+		v := arg(0, nil)
+		return Val{T: []string{app(e.fun("status_code", []string{SInt}, SBV(32)), v.T[0])}, Typ: types.Typ[types.Uint32]}
+	case "cancelOf":
+		c := arg(0, nil)
+		return Val{T: []string{app(e.fun("cancel_of", []string{SInt}, SInt), c.T[len(c.T)-1])}, Typ: types.Typ[types.UnsafePointer]}
+	case "doneOf":
+		c := arg(0, nil)
+		return Val{T: []string{app(e.fun("ctx_done", []string{SInt}, SInt), c.T[len(c.T)-1])}, Typ: types.Typ[types.UnsafePointer]}
 	case "ite":
 		c := arg(0, boolT)
 		a := arg(1, want)
